@@ -19,6 +19,7 @@ cost(track, a, b-1) (segment from a to b-1, both included) to fill matrix[a][b].
 import importlib
 import itertools
 
+import math
 import numpy as np
 
 from mc import alpha
@@ -57,6 +58,8 @@ MINI, MAXI = 0, 1
 DIRNAME = {MINI: "minimize", MAXI: "maximize"}
 
 OBLIGATIONS = {
+    "stop_reward_matrix_checked": "the reward matrix findStopsGlobal handed to optimalPartition was compared with its documented criterion",
+    "stop_on_a_millimetre_cluster": "findStopsGlobal was run on a track at a millimetre step with a piece that qualifies as a stop",
     "direction_matters": "a matrix whose minimum and maximum over break lists differ, in both directions",
     "optimum_is_direct_segment": "the optimum is the list [first, last] although other lists are worse",
     "optimum_uses_two_interior_breaks": "every optimal list has >= 2 interior breaks",
@@ -255,13 +258,68 @@ def seam_direction(mode):
     return None
 
 
-def make_track(variant, pts):
+MM = 2.0 ** -10            # the "-mm" callers: the same lattice at a millimetre step, no offset (a receiver standing still)
+
+
+def _xy(variant, px, py, frame="std"):
+    if frame == "mm":
+        return (px * MM, py * MM)
+    return alpha.xy(variant, px, py)
+
+
+def make_track(variant, pts, frame="std"):
     t0 = alpha.t0(variant)
     obs = []
     for i, (px, py) in enumerate(pts):
-        x, y = alpha.xy(variant, px, py)
+        x, y = _xy(variant, px, py, frame)
         obs.append(Obs(ENUCoords(x, y, 0.0), alpha.obstime(t0 + i)))
     return Track(obs)
+
+
+def _enclosing_diameter(P):
+    """Diameter of the smallest circle enclosing the points P (brute force over pairs and triples; |P| is tiny)."""
+    P = list(dict.fromkeys(P))
+    if len(P) <= 1:
+        return 0.0
+    best = None
+    cands = []
+    for a in range(len(P)):
+        for b in range(a + 1, len(P)):
+            (x1, y1), (x2, y2) = P[a], P[b]
+            cands.append(((x1 + x2) / 2.0, (y1 + y2) / 2.0, math.hypot(x2 - x1, y2 - y1) / 2.0))
+            for c in range(b + 1, len(P)):
+                x3, y3 = P[c]
+                d = 2.0 * (x1 * (y2 - y3) + x2 * (y3 - y1) + x3 * (y1 - y2))
+                if d == 0:
+                    continue
+                ux = ((x1 * x1 + y1 * y1) * (y2 - y3) + (x2 * x2 + y2 * y2) * (y3 - y1) + (x3 * x3 + y3 * y3) * (y1 - y2)) / d
+                uy = ((x1 * x1 + y1 * y1) * (x3 - x2) + (x2 * x2 + y2 * y2) * (x1 - x3) + (x3 * x3 + y3 * y3) * (x2 - x1)) / d
+                cands.append((ux, uy, math.hypot(x1 - ux, y1 - uy)))
+    for cx, cy, r in cands:
+        if all(math.hypot(x - cx, y - cy) <= r * (1 + 1e-12) + 1e-300 for x, y in P):
+            if best is None or r < best:
+                best = r
+    return 2.0 * best
+
+
+def _expected_stops_matrix(P, diameter, duration):
+    """What findStopsGlobal documents: C[i][j] = (j-i)^2 when the fixes i..j-1 last longer than `duration` (timestamps are
+    one second apart) and fit in a circle of diameter < `diameter`, else 0; candidates 0..size-2.  -> (matrix, set of
+    cells whose enclosing diameter is within 1e-9 of the threshold: either value is accepted there)."""
+    size = len(P)
+    M = [[0.0] * size for _ in range(size)]
+    loose = set()
+    for i in range(size - 2):
+        for j in range(i + 1, size - 1):
+            if (j - 1 - i) <= duration:
+                continue
+            d = _enclosing_diameter(P[i:j])
+            if abs(d - diameter) <= 1e-9 * diameter:
+                loose.add((i, j))
+                loose.add((j, i))
+            if d < diameter:
+                M[i][j] = M[j][i] = float((j - i) ** 2)
+    return M, loose
 
 
 def line_pts(k):
@@ -351,7 +409,9 @@ def _caller_list(variant):
             ("simplify-free-maximize/quiet", MAXI, "seam_simplify_free"),
             ("simplify-free-maximize/verbose", MAXI, "seam_simplify_free"),
             ("findStopsGlobal/small", MAXI, "seam_findStopsGlobal"),
-            ("findStopsGlobal/large", MAXI, "seam_findStopsGlobal")]
+            ("findStopsGlobal/large", MAXI, "seam_findStopsGlobal"),
+            ("findStopsGlobal/small-mm", MAXI, "seam_findStopsGlobal"),
+            ("findStopsGlobal/large-mm", MAXI, "seam_findStopsGlobal")]
 
 
 CALLERS = {c[0]: c for c in _caller_list(0)}
@@ -383,6 +443,10 @@ def _call(caller, track, cost, variant):
         return drive(SEG.findStopsGlobal, track, 1.2 * s, 0.5, 1, False)
     if caller == "findStopsGlobal/large":
         return drive(SEG.findStopsGlobal, track, 2.5 * s, 1.5, 1, False)
+    if caller == "findStopsGlobal/small-mm":
+        return drive(SEG.findStopsGlobal, track, 1.2 * MM, 0.5, 1, False)
+    if caller == "findStopsGlobal/large-mm":
+        return drive(SEG.findStopsGlobal, track, 2.5 * MM, 1.5, 1, False)
     raise RuntimeError("unknown caller %r" % caller)
 
 
@@ -426,7 +490,8 @@ def check_caller(variant, caller, pts, ctx, table=None):
     else:
         cost = _cost_geo(variant)
         ref = _cost_geo_ref(pts)
-    track = make_track(variant, pts)
+    frame = "mm" if caller.endswith("-mm") else "std"
+    track = make_track(variant, pts, frame)
     (st, r), calls = _call(caller, track, cost, variant)
     if st != "ok":
         ctx.violation("%s/%s" % (site, "does-not-return" if st == "hang" else "raises"), case, r)
@@ -461,6 +526,21 @@ def check_caller(variant, caller, pts, ctx, table=None):
         if any(Ml[a][n] != 0 or Ml[n][a] != 0 for a in range(size)):
             ctx.undef()         # the padding convention does not hold for this matrix: nothing to compare with
             return False
+        # findStopsGlobal documents its reward too: squared number of fixes of every piece that lasts long enough and
+        # fits in a circle of the given diameter.  Enclosing circles by brute force over pairs and triples.
+        unit = MM if frame == "mm" else alpha.scale(variant)
+        diam, dur = ((1.2, 0.5) if "small" in caller else (2.5, 1.5))
+        E, loose = _expected_stops_matrix([_xy(variant, p[0], p[1], frame) for p in pts], diam * unit, dur)
+        bad = [(a, b) for a in range(size) for b in range(size) if (a, b) not in loose and abs(Ml[a][b] - E[a][b]) > 1e-9]
+        if bad:
+            a, b = bad[0]
+            ctx.violation("findStopsGlobal/reward-matrix-differs-from-the-documented-criterion", case,
+                          {"cell": [a, b], "got": Ml[a][b], "expected": E[a][b], "diameter": diam * unit, "duration": dur,
+                           "fixes_of_the_piece": [list(_xy(variant, p[0], p[1], frame)) for p in pts[min(a, b):max(a, b)]]})
+            return False
+        ctx.oblige("stop_reward_matrix_checked")
+        if frame == "mm" and any(v != 0 for row in E for v in row):
+            ctx.oblige("stop_on_a_millimetre_cluster")
     # (3) the answer of the delegated call is an optimum of the matrix it was given, for the direction it was asked
     #     (a wrong direction is the caller's fault and was reported under (1); a wrong optimum is optimalPartition's)
     ok, nt = judge(ctx, "optimalPartition", case, answer, Ml, n, d, oblige=False)
